@@ -94,6 +94,13 @@ def gen_case(rng, k, exact=None, supplied=None, nb_points="?", x_axis=None):
         if rng.random() < 0.7:   # thresholds of the same unsigned kind: taken from the scores
             case["thresholds"] = [enc(rng.choice(pos + neg)) for _ in case["thresholds"]]
     case["thr_dtype"] = pick_dtype(rng, [F(x) for x in case["thresholds"]]) if case["thresholds"] else "float64"
+    if (case["fnr"] or case["fpr"]) and rng.random() < 0.2:
+        # the supplied rates arrive as a float32 / float16 array (non-dyadic rates such as 0.1, 0.05, 1/3 rounded to that type):
+        # the curve must contain what the object's own threshold setting assigns to exactly that array (oracle only)
+        case["rate_dtype"] = rng.choice(["float32", "float32", "float16"])
+        for nm in ("fnr", "fpr"):
+            if case[nm]:
+                case[nm] = [enc(Fraction(rng.choice([0.1, 0.05, 0.2, 1 / 3, 0.15, 0.3, 0.7, 0.9, 0.01]))) for _ in case[nm]]
     if case["thresholds"] and rng.random() < 0.15:
         # +-inf are legal thresholds (the corner points of the curve); oracle only, the model's thresholds are finite
         case["thresholds"] = case["thresholds"] + rng.choice([["inf"], ["-inf"], ["-inf", "inf"]])
@@ -141,6 +148,9 @@ def run_impl(case):
     fnr, fpr, thr = _arr(case["fnr"], np), _arr(case["fpr"], np), _arr(case["thresholds"], np)
     if thr is not None:
         thr = thr.astype(np.dtype(case.get("thr_dtype", "float64")))
+    if case.get("rate_dtype"):
+        fnr = None if fnr is None else fnr.astype(np.dtype(case["rate_dtype"]))
+        fpr = None if fpr is None else fpr.astype(np.dtype(case["rate_dtype"]))
     c = roc(s, fnr=fnr, fpr=fpr, thresholds=thr, nb_points=case["nb_points"], x_axis=case["x_axis"])
     t = np.asarray(c.thresholds, dtype=float)
     out = {"thresholds": _encl(t), "fnr": _encl(c.fnr), "fpr": _encl(c.fpr),
@@ -189,7 +199,7 @@ def model_call(case):
 
 
 def coq_term(case, res):
-    if not case.get("exact"):
+    if not case.get("exact") or case.get("rate_dtype"):
         return None
     if any(t in ("inf", "-inf") for t in (case["thresholds"] or [])):
         return None
